@@ -517,4 +517,19 @@ theorem pieces_added (ci : Bool) (v n : Bytes) (hlow : ci = true → hasUpper n 
       rw [toLower_of_noUpper s (hasUpper_piece v s hsv hu')]
       exact mem_addedKeys_seg v s hsv hsne
 
+
+/-- a word that is not blank has a non-empty piece (so: a bloom key) -/
+theorem piece_of_not_blank (w : Bytes) (h : blankWord w = false) : ∃ s ∈ splitSpace w, s ≠ [] := by
+  induction w with
+  | nil => simp [blankWord] at h
+  | cons b r ih =>
+    by_cases hb : b = 32
+    · subst hb
+      have hr : blankWord r = false := by simpa [blankWord] using h
+      obtain ⟨s, hs, hne⟩ := ih hr
+      exact ⟨s, by simp [splitSpace, hs], hne⟩
+    · cases hsr : splitSpace r with
+      | nil => exact absurd hsr (splitSpace_ne_nil r)
+      | cons s0 ss => exact ⟨b :: s0, by simp [splitSpace, hb, hsr], by simp⟩
+
 end SigModel.Bloom
